@@ -312,4 +312,12 @@ def decodeTree (data : Bytes) (fuel depth : Nat) : Except BErr Tree := do
   let (n, _) ← decodeAt data 0
   readNode data fuel depth n
 
+/-- `Sequence.decode(data)` as `register_trap_callback` calls it: the first TLV is read as a
+    sequence WITHOUT looking at its tag (x690's `X690Type.decode` does not validate the header) -/
+def decodeTreeForced (data : Bytes) (fuel depth : Nat) : Except BErr Tree := do
+  let (sl, _) ← getValueSlice data 0
+  let items ← seqItems data sl fuel
+  let ts ← items.mapM (readNode data fuel depth)
+  pure (.seq "Sequence" ts)
+
 end Snmp.Ber
